@@ -114,6 +114,11 @@ def run(ctx):
         n += 1
         cases.append(mk("c18_%d" % n, cmds=[("query", cmd_query(b"big")), ("ping", cmd_ping()), ("query", cmd_query(b"after"))],
                         scripts=big, chunks="*", clientcert=0, wcap=rng.choice([1000, 97, 4096])))
+    # one outbound packet larger than the engine's 64 KiB send buffer (a 100 kB / 1 MB cell)
+    for big in (100000, 1 << 20):
+        n += 1
+        cases.append(mk("c18_%d" % n, cmds=[("query", cmd_query(b"blob")), ("ping", cmd_ping())],
+                        scripts=["q start 1 %s wr 1 b:r%dx62 p fin" % (col(b"a", 252, 0), big)], chunks="*", clientcert=0))
     # the encrypted handshake response need not repeat the capability bits of the SSL request
     for caps2 in (DEFAULT_CAPS, 0x200, DEFAULT_CAPS | 0x8, (rng.getrandbits(32) | 0x200) & ~0x800, (rng.getrandbits(32) | 0xa00)):
         n += 1
